@@ -434,9 +434,18 @@ class ConditionLike:
                         f"types are: {list(DTYPE_LOOKUP.keys())!r}."
                     )
 
+            # look the callable up (case-insensitively, since names like
+            # `keys_contain_N_of` are not lower case) among the condition callables only:
             try:
-                cond_method = getattr(cls, cond_call_str)
-            except AttributeError:
+                callable_names = {
+                    name.lower(): name
+                    for base in (GeneralCallables, MapCallables)
+                    if issubclass(cls, base)
+                    for name, val in vars(base).items()
+                    if isinstance(val, classmethod)
+                }
+                cond_method = getattr(cls, callable_names[cond_call_str])
+            except (KeyError, TypeError):
                 msg = (
                     f'Condition callable "{cond_call_str}" is not known or not '
                     f'compatible with specified condition type "{condition_type_str}"'
